@@ -100,6 +100,10 @@ def main(tier):
                 m = re.search(r'expression: (.*?)(\n| \||$)', what)
                 ml = re.search(r'at line (\d+) of \S*/(\w+\.cpp)', what)
                 key = ('assertion:' + re.sub(r'[^A-Za-z0-9_>!=<.()-]+', '', m.group(1))[:50] + ('@' + ml.group(2) if ml else '')) if m else 'assertion'
+            if t == 'route-through-a-third-node':
+                # rare on the unchanged tree: listed by exact input (DESIGN 10: class-level keys mask seeded changes)
+                import hashlib
+                key += ':case-' + hashlib.sha1(json.dumps([x['n'], x['size'], x['edges'], x['opts']], sort_keys=True).encode()).hexdigest()[:10]
             vd.violation(key, '%s %s: n=%d sizes=%s edges=%s opts=%d' % (t, what[:160].replace('\n', ' '), x['n'], x['size'], x['edges'], x['opts']),
                          {k: x.get(k) for k in ('n', 'size', 'edges', 'opts', 'what', 'nodes', 'routes')} if x['n'] <= 10 else {'n': x['n'], 'edges': x['edges'], 'opts': x['opts'], 'what': what})
     # phase-level observations printed by the specification (never violations)
